@@ -278,6 +278,33 @@ def run(ctx, impl_only=False):
                     ctx.violate(case, 'a value altered only in what %s and %s ignore gives a non-empty diff: %s' % (name, other, str(d)[:150]))
             if len(ctx.samples) < 6 and i == 0:
                 ctx.sample({'option': name, 'x': repr(x)[:100], 'y': repr(y)[:100]})
+    # ---- sets that hold two members the option identifies (twins): altering one twin into the other collapses the set; still nothing to report
+    twin_src = {'ignore_string_case': ['Alpha', 'mixed Case', 'Zed9'], 'ignore_string_type_changes': ['k', 'abc', ''],
+                'significant_digits': [1.5, 2.25, 100.125], 'use_enum_value': [Color.RED, Color.GREEN]}
+    for name, pool in twin_src.items():
+        fn = NORMALISERS[name][0]
+        for i in range(max(6, n // 10)):
+            a = ctx.rng.choice(pool)
+            b = fn(ctx.rng, a)
+            if b is None:
+                continue
+            try:
+                filler = set(ctx.rng.sample(['p', 'q', 7, 8.5, None, (1, 2)], ctx.rng.randint(0, 3)))
+                mk = ctx.rng.choice([set, frozenset])
+                s_both, s_one = mk({a, b} | filler), mk({ctx.rng.choice([a, b])} | filler)
+            except TypeError:
+                continue
+            wrap = ctx.rng.choice([lambda v: v, lambda v: {'s': v, 'z': 1}, lambda v: [v, 0]])
+            for x, y in ((wrap(s_both), wrap(s_one)), (wrap(s_one), wrap(s_both))):
+                kw = dict(OPTIONS[name])
+                case = {'clause': 'normaliser', 'option': name, 'x': repr(x), 'y': repr(y), 'zip': False}
+                ctx.evaluations += 1
+                d, e = safe_diff(x, y, **kw)
+                ctx.count('twin_set_members:' + name)
+                if e is not None:
+                    ctx.violate(case, 'DeepDiff raised %s: %s' % (type(e).__name__, str(e)[:80]))
+                elif d:
+                    ctx.violate(case, 'a set whose members %r and %r are one value under %s, with one of them altered into the other, gives a non-empty diff: %s' % (a, b, name, str(d)[:150]))
     # timezone of the same instant: empty under the default options and under every datetime option
     for i in range(n):
         x = gen_value(ctx, 'default_timezone')
